@@ -148,6 +148,19 @@ f23_S: {#Base23_S, id_S: "i", labels_S: app_S: "x", extra_S: len(labels_S)}`,
 	// closed structs with pattern constraints: whether a label is allowed is decided by the patterns
 	/*33*/ `#C33_S: {[=~"^x"]: int, [=~"^s"]: string, a_S: 1}
 f33_S: {v_S: #C33_S & {x1_S: 2, s1_S: "q"}, w_S: close({[=~"^k"]: bool, k1_S: true})}`,
+	// attributes: one declaration shared by two fields that each add their own, several declarations of one field, doc comments
+	/*34*/ `#D34_S: {
+	// a has three attributes
+	a_S: int @one(1) @two(2) @three(3)
+}
+#EX34_S: {a_S: 1 @forx(x)}
+#EY34_S: {a_S: 2 @fory(y)}
+f34_S: {x_S: #D34_S & #EX34_S, y_S: #D34_S & #EY34_S, z_S: {
+	// first
+	b_S: 1 @p(1) @q(2) @r(3) @s(4) @t(5)
+	// second
+	b_S: int @u(6) @p(1)
+} @decl(z)}`,
 }
 
 // program imports only the builtin packages its fragments use, so that the
@@ -175,26 +188,29 @@ var snippetPaths = [][]string{
 	{"", "lo_S"}, {"", "d_S"}, {"", "y_S", "z_S"},
 	{"", "a_S", "c_S", "d_S", "e_S", "v_S", "w_S.x_S"}, {"", "bad_S", "l_S", "n_S", "o_S", "r_S", "i_S"},
 	{"v_S", "w_S", "v_S", ""},
+	{"x_S.a_S", "y_S.a_S", "z_S.b_S", "z_S", "x_S", ""},
 }
 
 var opKinds = []string{"lookup", "fields", "fields-all", "walk", "unify", "unify-accept", "fill", "fill-value", "validate", "validate-concrete", "default", "eval",
 	"syntax", "syntax-final", "syntax-all", "decode", "json", "yaml", "equals", "subsume", "expr", "refpath", "allows", "kind", "len", "attrs", "compile", "encode", "encode-type",
-	"list", "exists-concrete", "string-int", "buildexpr", "validator-eq", "validator-eq", "decode-ci", "decode-ci", "fresh-eval", "fresh-eval", "build-file", "build-instance", "expr-syntax", "err-format", "let-merge", "let-merge", "allows-many"}
+	"list", "exists-concrete", "string-int", "buildexpr", "validator-eq", "validator-eq", "decode-ci", "decode-ci", "fresh-eval", "fresh-eval", "build-file", "build-instance", "expr-syntax", "err-format", "let-merge", "let-merge", "allows-many", "syntax-attrs"}
 
 var affinity = map[string]struct {
 	p     float64
 	frags []int
 }{
-	"err-format":  {0.8, []int{32}},
-	"expr-syntax": {0.7, []int{31}},
-	"syntax":      {0.3, []int{31, 32}},
-	"syntax-all":  {0.3, []int{31, 32}},
-	"kind":        {0.3, []int{31}},
-	"equals":      {0.3, []int{31}},
-	"validate":    {0.2, []int{32}},
-	"allows":      {0.5, []int{33}},
-	"allows-many": {0.7, []int{33}},
-	"default":     {0.4, []int{25, 26, 29}},
+	"err-format":   {0.8, []int{32}},
+	"expr-syntax":  {0.7, []int{31}},
+	"syntax":       {0.3, []int{31, 32}},
+	"syntax-all":   {0.3, []int{31, 32}},
+	"kind":         {0.3, []int{31}},
+	"equals":       {0.3, []int{31}},
+	"validate":     {0.2, []int{32}},
+	"allows":       {0.5, []int{33}},
+	"allows-many":  {0.7, []int{33}},
+	"default":      {0.4, []int{25, 26, 29}},
+	"attrs":        {0.6, []int{34}},
+	"syntax-attrs": {0.6, []int{34}},
 }
 
 // rare branches where a badly placed preemption matters most
@@ -306,10 +322,10 @@ func gen(seed uint64, tier string, idx int) sim.CaseI {
 // ---------- operations ----------
 
 type env struct {
-	ctx  *cue.Context
-	vals []cue.Value
-	sfx  string
-	src  string // the program text
+	ctx   *cue.Context
+	vals  []cue.Value
+	sfx   string
+	src   string // the program text
 	small string // a small file that build-file / build-instance calls parse and build (each call its own AST:
 	// building resolves identifiers in place, so an *ast.File is not a read-only input)
 
@@ -338,9 +354,9 @@ func build(c *Case) *env {
 	first := fmt.Sprintf("f%d_%s", c.Snippets[0], c.Suffix)
 	extra := ctx.CompileString(fmt.Sprintf("extra_%s: {e_%s: 1}\n%s: _", c.Suffix, c.Suffix, first))
 	e.vals = []cue.Value{
-		root,                         // as compiled
+		root,                                  // as compiled
 		root.LookupPath(cue.ParsePath(first)), // a sub-value
-		root.Unify(extra),            // derived, not yet looked at
+		root.Unify(extra),                     // derived, not yet looked at
 		root.FillPath(cue.ParsePath("filled_"+c.Suffix), map[string]any{"k": 1}),
 	}
 	return e
@@ -561,7 +577,23 @@ func doOp(e *env, op Op) (res string) {
 	case "len":
 		return show(at.Len())
 	case "attrs":
-		return fmt.Sprint(len(at.Attributes(cue.ValueAttr)), len(at.Doc()), at.Pos().Line())
+		var b strings.Builder
+		for _, k := range []cue.AttrKind{cue.ValueAttr, cue.FieldAttr, cue.DeclAttr} {
+			for _, a := range at.Attributes(k) {
+				fmt.Fprintf(&b, "@%s(%s) ", a.Name(), a.Contents())
+			}
+			b.WriteString("| ")
+		}
+		for _, n := range []string{"forx", "fory", "u", "one"} {
+			a := at.Attribute(n)
+			fmt.Fprintf(&b, "%s=%q/%v ", n, a.Contents(), a.Err() == nil)
+		}
+		for _, d := range at.Doc() {
+			b.WriteString(strings.TrimSpace(d.Text()) + ";")
+		}
+		return b.String() + fmt.Sprint(at.Pos().Line())
+	case "syntax-attrs":
+		return synt(at, cue.Attributes(true), cue.Docs(true))
 	case "compile":
 		w := e.ctx.CompileString(fmt.Sprintf("import \"strings\"\ncs_%s_%d: {u_%s_%d: %d, v: strings.ToLower(\"AB\")}", e.sfx, op.Arg, e.sfx, op.Arg, op.Arg))
 		return show(w.LookupPath(cue.ParsePath(fmt.Sprintf("cs_%s_%d.u_%s_%d", e.sfx, op.Arg, e.sfx, op.Arg)))) + " IN " + show(w)
@@ -841,11 +873,11 @@ var Prop = &sim.Prop{
 	ID:       "C19",
 	Isolated: true,
 	New:      func() sim.CaseI { return &Case{} },
-	Gen:  gen,
-	Exec: exec,
-	Rule: "case = generated program (3-8 fragments of 20: definitions and closedness, defaults and disjunctions, comprehensions, references and cycles, pattern constraints, optional/required fields, let, lists, builtin packages strings/list/math/struct/json loaded lazily; label names fresh per run) x 2-16 caller goroutines x 3-10 API operations each of 33 kinds on four shared values (as compiled, a sub-value, an unevaluated Unify result, a FillPath result) or on a context of their own x scheduler policy (PCT with 1-3 change points, uniform switch probability 0.2%-30%, sequential), all from the run seed; non-trivial = at least one context switch happened at a yield point; distinct = distinct hash of the positions and targets of all context switches",
-	Real: []string{"cue API", "internal/core/{adt,compile,runtime,convert,export,eval,subsume,validate}", "cue/format", "encoding/yaml", "builtin packages", "Go race detector"},
-	Stubs: []string{"none (caller goroutines are the simulated nodes)"},
+	Gen:      gen,
+	Exec:     exec,
+	Rule:     "case = generated program (3-8 fragments of 20: definitions and closedness, defaults and disjunctions, comprehensions, references and cycles, pattern constraints, optional/required fields, let, lists, builtin packages strings/list/math/struct/json loaded lazily; label names fresh per run) x 2-16 caller goroutines x 3-10 API operations each of 33 kinds on four shared values (as compiled, a sub-value, an unevaluated Unify result, a FillPath result) or on a context of their own x scheduler policy (PCT with 1-3 change points, uniform switch probability 0.2%-30%, sequential), all from the run seed; non-trivial = at least one context switch happened at a yield point; distinct = distinct hash of the positions and targets of all context switches",
+	Real:     []string{"cue API", "internal/core/{adt,compile,runtime,convert,export,eval,subsume,validate}", "cue/format", "encoding/yaml", "builtin packages", "Go race detector"},
+	Stubs:    []string{"none (caller goroutines are the simulated nodes)"},
 }
 
 func TestWorker(t *testing.T) { sim.WorkerMain(t, Prop) }
